@@ -20,7 +20,7 @@ From FG Require Import Word64 Geom Tables TablesCorrect ShiftCorrect Rules Oracl
                        AttacksImpl AttacksLemmas AttacksProofs AttacksMoves AttacksCheckProofs AttacksLegalProofs
                        MoveEnc SqListFacts MovegenImpl MovegenLemmas MovegenSpec
                        MovegenProofsOD MovegenProofsPieces MovegenProofsPawns MovegenProofsMain
-                       MovegenMakeLegal MovegenProofsLegal MovegenProofsEvasion.
+                       MovegenMakeLegal MovegenProofsLegal MovegenProofsODChess MovegenProofsEvasion.
 Import ListNotations.
 Open Scope N_scope.
 
@@ -112,6 +112,14 @@ Qed.
 Lemma btw_not_ends e k a u : k < 64 -> a < 64 -> ray_in 0 e k a = true -> In u (btw e k a) -> u <> k /\ u <> a.
 Proof. intros Hk Ha Hr Hu. destruct (btw_on_ray e k a u Hk Ha Hr Hu) as (_ & _ & A & B). now split. Qed.
 
+Lemma forallb_false_ex {A} (f : A -> bool) (l : list A) : forallb f l = false -> exists u, In u l /\ f u = false.
+Proof.
+  induction l as [|x l IH]; cbn [forallb]; intros H; [discriminate|].
+  destruct (f x) eqn:X.
+  - cbn [andb] in H. destruct (IH H) as [u [Hu1 Hu2]]. exists u. split; [now right|exact Hu2].
+  - exists x. split; [now left|exact X].
+Qed.
+
 Lemma free_occ b u : u < 64 -> free (occ_of b) u = (at_ b u =? 0).
 Proof.
   intros Hu. unfold free. rewrite occ_of_testbit. replace (u <? 64) with true by lia. cbn [andb]. apply negb_involutive.
@@ -141,12 +149,8 @@ Lemma ray_blocked e k a : ray_in (occ_of b) e k a = true -> ray_in (occ_of b') e
 Proof.
   intros Hr Hr'. rewrite ray_in_char in Hr, Hr'. apply andb_true_iff in Hr as [R0 Rf]. rewrite R0 in Hr'. cbn [andb] in Hr'.
   split; [exact R0|]. split; [exact Rf|].
-  assert (G : exists u, In u (btw e k a) /\ free (occ_of b') u = false).
-  { clear - Hr'. induction (btw e k a) as [|x l IH]; cbn [forallb] in Hr'; [discriminate|].
-    destruct (free (occ_of b') x) eqn:X.
-    - cbn [andb] in Hr'. destruct (IH Hr') as [u [Hu1 Hu2]]. exists u. split; [now right|exact Hu2].
-    - exists x. split; [now left|exact X]. }
-  destruct G as [u [Hu1 Hu2]]. rewrite forallb_forall in Rf. pose proof (Rf u Hu1) as Hu3.
+  destruct (forallb_false_ex _ _ Hr') as [u [Hu1 Hu2]].
+  rewrite forallb_forall in Rf. pose proof (Rf u Hu1) as Hu3.
   pose proof (btw_lt _ _ _ _ Hu1) as Hu64. assert (E : u = t) by (now apply free_after). now rewrite <- E.
 Qed.
 
@@ -272,4 +276,278 @@ Proof.
     exists e. exact (ray_blocked b (brd (make p m)) (mfrom m) (mto m) (arriving m) Hat e k a Hr Hr').
 Qed.
 
+(** *** the checking pieces as a word *)
+Lemma no_ep_on_king : ep_conv2 p k ec = [].
+Proof.
+  destruct Cking as (K1 & K2 & K3). unfold ep_conv2.
+  destruct (ep_facts p Hlegal) as [He|[He He0]]; [rewrite He; reflexivity|].
+  replace (ep p =? 64) with false by (clear - He; lia). cbn [orb].
+  destruct (N.eqb_spec k (ep p)) as [E|E]; [|reflexivity].
+  exfalso. rewrite <- E, K2 in He0. now apply mkp_king_nz in He0.
+Qed.
+
+Lemma king_attackers_word : king_attackers p = bb_filter (att_from b k ec).
+Proof.
+  unfold king_attackers, attacks_to_spec. rewrite no_ep_on_king, attackers_word. cbn [bb_of fold_right]. apply N.lor_0_r.
+Qed.
+
+Lemma king_attackers_bit a : N.testbit (king_attackers p) a = (a <? 64) && att_from b k ec a.
+Proof. rewrite king_attackers_word. apply bb_filter_testbit. Qed.
+
+Lemma king_attackers_lt : king_attackers p < W64.
+Proof. rewrite king_attackers_word. apply bb_filter_lt. Qed.
+
+Lemma some_checker : exists a, a < 64 /\ att_from b k ec a = true.
+Proof. destruct Cking as (K1 & _). destruct Cec as [E1 _]. apply (attacked_ex b k ec K1 E1). exact Cattacked. Qed.
+
+(** *** counting set bits *)
+Lemma other_element (l : list N) a0 : NoDup l -> In a0 l -> length l <> 1%nat -> exists a1, In a1 l /\ a1 <> a0.
+Proof.
+  intros Hnd Hin Hlen. destruct l as [|x [|y r]]; [destruct Hin|cbn in Hlen; congruence|].
+  inversion Hnd as [|? ? Hx _]; subst.
+  destruct (N.eq_dec a0 x) as [->|E].
+  - exists y. split; [right; now left|]. intros ->. apply Hx. now left.
+  - exists x. split; [now left|congruence].
+Qed.
+
+Lemma popcount_one W a0 : W < W64 -> popcount W = 1%nat -> N.testbit W a0 = true ->
+  lsb W = a0 /\ forall a, N.testbit W a = true -> a = a0.
+Proof.
+  intros HW Hp Ha. pose proof (sq_list_of_bb_length W HW) as Hl. rewrite Hp in Hl.
+  destruct (sq_list_of_bb W) as [|x [|y r]] eqn:E; try discriminate.
+  assert (Hin : forall a, N.testbit W a = true -> a = x).
+  { intros a Hb. apply (sq_list_in W a HW) in Hb. rewrite E in Hb. destruct Hb as [Hb|[]]. now symmetry. }
+  assert (Ex : x = a0) by (symmetry; now apply Hin). subst x. split; [|exact Hin].
+  assert (Hnz : W <> 0) by (intros Z; rewrite Z, N.bits_0 in Ha; discriminate).
+  apply Hin. now apply lsb_spec.
+Qed.
+
+Lemma popcount_many W a0 : W < W64 -> popcount W <> 1%nat -> N.testbit W a0 = true ->
+  exists a1, a1 <> a0 /\ N.testbit W a1 = true.
+Proof.
+  intros HW Hp Ha. pose proof (sq_list_of_bb_length W HW) as Hl.
+  destruct (other_element (sq_list_of_bb W) a0) as [a1 [H1 H2]].
+  - apply sq_list_of_bb_NoDup_any.
+  - now apply (sq_list_in W a0 HW).
+  - congruence.
+  - exists a1. split; [exact H2|now apply (sq_list_in W a1 HW)].
+Qed.
+
+(** *** a legal non-king move lands on an evasion target *)
+Lemma legal_target_in_evt m : In m (pseudo p) -> is_legal p m = true ->
+  mtype m <> CASTLING -> mtype m <> ENPASSANT -> mover p m <> KING ->
+  N.testbit (evasion_targets_spec p) (mto m) = true.
+Proof.
+  intros Hm His Hc He Hmv. destruct Cking as (K1 & K2 & K3).
+  destruct some_checker as [a0 [Ha0 Hatt0]].
+  assert (Hb0 : N.testbit (king_attackers p) a0 = true).
+  { rewrite king_attackers_bit, Hatt0. clear - Ha0. lia. }
+  pose proof (legal_blocks m Hm His Hc He Hmv) as Hblk.
+  unfold evasion_targets_spec. cbv zeta.
+  destruct (popcount (king_attackers p) =? 1)%nat eqn:Ep.
+  - apply Nat.eqb_eq in Ep. destruct (popcount_one _ a0 king_attackers_lt Ep Hb0) as [Hl _]. rewrite Hl.
+    destruct (Hblk a0 Ha0 Hatt0) as [Et|[Hsl [e [R0 [Rf Hin]]]]].
+    + assert (X : N.testbit (king_attackers p) (mto m) = true) by (now rewrite Et).
+      destruct (KNIGHT <? type_of (at_ b a0)); [rewrite N.lor_spec, X; reflexivity|exact X].
+    + replace (KNIGHT <? type_of (at_ b a0)) with true
+        by (clear - Hsl; unfold slider, KNIGHT, BISHOP, ROOK, QUEEN in *; lia).
+      rewrite N.lor_spec, (between_btw k a0 e (mto m) K1 Ha0 R0 Hin). apply orb_true_r.
+  - apply Nat.eqb_neq in Ep.
+    destruct (N.testbit (king_attackers p) (mto m)) eqn:X; [reflexivity|exfalso].
+    destruct (popcount_many _ a0 king_attackers_lt Ep Hb0) as [a1 [Hne Hb1]].
+    rewrite king_attackers_bit in Hb1. apply andb_true_iff in Hb1 as [Ha1 Hatt1]. apply N.ltb_lt in Ha1.
+    assert (N0 : mto m <> a0) by (intros E; rewrite E, Hb0 in X; discriminate).
+    assert (N1 : mto m <> a1).
+    { intros E. rewrite E, king_attackers_bit, Hatt1 in X. clear - X Ha1. lia. }
+    destruct (Hblk a0 Ha0 Hatt0) as [Et|[_ [e0 [R0 [Rf0 Hin0]]]]]; [contradiction|].
+    destruct (Hblk a1 Ha1 Hatt1) as [Et|[_ [e1 [R1 [Rf1 Hin1]]]]]; [contradiction|].
+    assert (Occ : forall a, a < 64 -> att_from b k ec a = true -> free (occ_of b) a = false).
+    { intros a Ha Hatt. rewrite free_occ by exact Ha. apply att_from_inv in Hatt as (ty & Hty & Haty & _).
+      rewrite Haty. apply N.eqb_neq. apply mkp_nz. clear - Hty. lia. }
+    destruct (double_block k (mto m) e0 a0 e1 a1 K1 Ha0 Ha1 R0 Hin0 R1 Hin1 (not_eq_sym Hne)) as [D|D].
+    + rewrite forallb_forall in Rf1. specialize (Rf1 a0 D). rewrite (Occ a0 Ha0 Hatt0) in Rf1. discriminate.
+    + rewrite forallb_forall in Rf0. specialize (Rf0 a1 D). rewrite (Occ a1 Ha1 Hatt1) in Rf0. discriminate.
+Qed.
+
+
+(** *** king moves *)
+Lemma self_attack_check :
+  forallb (fun x => forallb (fun t => negb (existsb (N.eqb t) (pawn_attack_targets x t))) squares64) [0; 1] = true.
+Proof. vm_compute. reflexivity. Qed.
+
+Lemma no_self_attack bd t x a ty : t < 64 -> x < 2 -> 1 <= ty <= 6 -> type_clause bd t x a ty = true -> a <> t.
+Proof.
+  intros Ht Hx Hty Hcl E. subst a. unfold type_clause in Hcl.
+  assert (Hs : forall ty', ~ In t (spec_targets bd ty' t)) by (intros ty'; now apply targets_not_self).
+  destruct (ty =? PAWN).
+  { pose proof self_attack_check as H. rewrite forallb_forall in H. assert (Hin : In x [0;1]) by (cbn; lia).
+    pose proof (forall_squares _ (H x Hin) t Ht) as G. cbv beta in G. now rewrite Hcl in G. }
+  destruct (ty =? KNIGHT) eqn:E1; [apply existsb_eqb_In in Hcl; apply (Hs KNIGHT); exact Hcl|].
+  destruct (ty =? KING) eqn:E2; [apply existsb_eqb_In in Hcl; apply (Hs KING); exact Hcl|].
+  destruct (ty =? ROOK) eqn:E3; [apply existsb_eqb_In in Hcl; apply (Hs ROOK); exact Hcl|].
+  destruct (ty =? BISHOP) eqn:E4; [apply existsb_eqb_In in Hcl; apply (Hs BISHOP); exact Hcl|].
+  destruct (ty =? QUEEN) eqn:E5; [apply existsb_eqb_In in Hcl; apply (Hs QUEEN); exact Hcl|discriminate].
+Qed.
+
+(* the engine's second en passant convention marks a square only if a pawn really attacks it *)
+Lemma ep_conv2_check :
+  forallb (fun x => forallb (fun e =>
+    if (8 <=? e) && (e <? 56) then
+      let ps := if x =? WHITE then e - 8 else e + 8 in
+      (negb (0 <? file_of ps) || ((ps - 1 <? 64) && existsb (N.eqb e) (pawn_attack_targets x (ps - 1)))) &&
+      (negb (file_of ps <? 7) || ((ps + 1 <? 64) && existsb (N.eqb e) (pawn_attack_targets x (ps + 1))))
+    else true) squares64) [0; 1] = true.
+Proof. vm_compute. reflexivity. Qed.
+
+Lemma ep_conv2_attacked t : (forall a, a < 64 -> att_from b t ec a = false) -> ep_conv2 p t ec = [].
+Proof.
+  intros Hno. destruct Cec as [E1 _]. unfold ep_conv2.
+  destruct ((ep p =? 64) || negb (t =? ep p)) eqn:E0; [reflexivity|].
+  apply orb_false_iff in E0 as [Ee Et]. apply negb_false_iff, N.eqb_eq in Et. subst t.
+  assert (Hr : 8 <= ep p < 56).
+  { assert (He : ep p < 64) by (destruct (ep_facts p Hlegal) as [H|[H _]]; [rewrite H in Ee; discriminate|exact H]).
+    pose proof (legal_pos_inv p Hlegal) as (_ & _ & _ & _ & _ & _ & _ & _ & _ & Hep).
+    unfold ep_ok in Hep. rewrite Ee in Hep. repeat (apply andb_true_iff in Hep as [Hep ?]).
+    assert (G : forallb (fun e => negb ((rank_of e =? 5) || (rank_of e =? 2)) || ((8 <=? e) && (e <? 56))) squares64 = true)
+      by (vm_compute; reflexivity).
+    pose proof (forall_squares _ G (ep p) He) as G'. cbv beta in G'.
+    clear - Hep G'. destruct (stm p =? WHITE); lia. }
+  set (ps := if ec =? WHITE then ep p - 8 else ep p + 8).
+  destruct ((ps <? 64) && _) eqn:Ec; [exfalso|reflexivity].
+  apply andb_true_iff in Ec as [Hps Hn].
+  pose proof ep_conv2_check as H. rewrite forallb_forall in H. assert (Hin : In ec [0;1]) by (cbn [In]; clear - E1; lia).
+  assert (He64 : ep p < 64) by (clear - Hr; lia).
+  pose proof (forall_squares _ (H ec Hin) (ep p) He64) as G. cbv beta zeta in G.
+  replace ((8 <=? ep p) && (ep p <? 56)) with true in G by (clear - Hr; lia). fold ps in G.
+  apply andb_true_iff in G as [G1 G2].
+  assert (Pawn : forall x, x < 64 -> piece_at p x = mk_piece ec PAWN -> existsb (N.eqb (ep p)) (pawn_attack_targets ec x) = true ->
+                 False).
+  { intros x Hx Hpx Hat. specialize (Hno x Hx).
+    rewrite (att_from_piece b (ep p) ec x PAWN Hpx) in Hno by (unfold PAWN; lia).
+    unfold type_clause in Hno. rewrite N.eqb_refl in Hno. congruence. }
+  apply orb_true_iff in Hn as [Hn|Hn]; apply andb_true_iff in Hn as [Hf Hp]; apply N.eqb_eq in Hp.
+  - rewrite Hf in G1. cbn [negb orb] in G1. apply andb_true_iff in G1 as [X1 X2]. apply N.ltb_lt in X1. now apply (Pawn (ps - 1)).
+  - rewrite Hf in G2. cbn [negb orb] in G2. apply andb_true_iff in G2 as [X1 X2]. apply N.ltb_lt in X1. now apply (Pawn (ps + 1)).
+Qed.
+
+Lemma king_move_safe m : In m (pseudo p) -> is_legal p m = true ->
+  mtype m <> CASTLING -> mtype m <> ENPASSANT -> mover p m = KING -> king_safe p (mto m) = true.
+Proof.
+  intros Hm His Hc He Hmv. destruct Cking as (K1 & K2 & K3). destruct Cec as [E1 E2]. pose proof Cc as Hcc.
+  destruct (simple_move_facts m Hm Hc He) as (Hf & Ht & Hty & Hnz & Hcol & Hto & Hpr).
+  destruct (after_simple m Hm Hc He) as (Hat & A1 & A2 & A3).
+  (* the mover is the king *)
+  assert (Hfk : mfrom m = k).
+  { apply K3; [exact Hf|]. destruct (piece_split _ (wf_codes p Cw (mfrom m)) Hnz) as (Hsp & _ & _).
+    unfold mover, piece_at in Hmv. rewrite Hsp, Hcol, Hmv. reflexivity. }
+  assert (Hnorm : mtype m = NORMAL).
+  { destruct Hty as [E|E]; [exact E|]. destruct (Hpr E) as [X _]. unfold mover, piece_at in Hmv. rewrite Hmv in X. discriminate. }
+  assert (Harr : arriving m = mk_piece c KING).
+  { unfold arriving. rewrite Hnorm. change (NORMAL =? PROMOTION) with false. cbv iota. now rewrite Hfk. }
+  assert (Ntk : mto m <> k).
+  { intros E. rewrite E, K2 in Hto. destruct Hto as [Hto|[_ Hto]]; [now apply mkp_king_nz in Hto|].
+    rewrite mkp_colour_king in Hto. now apply Hto. }
+  (* after the move the king stands on the to square and is not attacked there *)
+  assert (Hks : king_sq (brd (make p m)) c = mto m).
+  { apply king_sq_intro; [exact Ht| |].
+    - rewrite Hat, N.eqb_refl. exact Harr.
+    - intros s Hs E. rewrite Hat in E. destruct (N.eqb_spec s (mto m)) as [Es|Es]; [exact Es|exfalso].
+      destruct (N.eqb_spec s (mfrom m)) as [Es'|Es']; [symmetry in E; now apply mkp_king_nz in E|].
+      apply Es'. rewrite Hfk. now apply K3. }
+  pose proof (legal_king_safe p m His) as Hsafe. rewrite Hks in Hsafe.
+  pose proof (not_attacked_all _ (mto m) ec Ht E1 Hsafe) as Hna.
+  (* so no piece attacks the to square now *)
+  assert (Hno : forall a, a < 64 -> att_from b (mto m) ec a = false).
+  { intros a Ha. destruct (att_from b (mto m) ec a) eqn:Hatt; [exfalso|reflexivity].
+    specialize (Hna a Ha). apply att_from_inv in Hatt as (ty & Hty' & Haty & Hcl).
+    assert (Nat : a <> mto m) by (apply (no_self_attack b (mto m) ec a ty Ht E1 Hty' Hcl)).
+    assert (Naf : a <> mfrom m).
+    { intros E. rewrite E in Haty. rewrite Haty, mk_piece_colour in Hcol by (clear - Hty'; lia). now apply E2. }
+    assert (Haty' : at_ (brd (make p m)) a = mk_piece ec ty).
+    { rewrite Hat. replace (a =? mto m) with false by (symmetry; now apply N.eqb_neq).
+      replace (a =? mfrom m) with false by (symmetry; now apply N.eqb_neq). exact Haty. }
+    rewrite (att_from_piece _ (mto m) ec a ty Haty') in Hna by (clear - Hty'; lia).
+    destruct (type_cases ty Hty') as [Hns|Hsl].
+    - rewrite (nonslider_clause (brd (make p m)) b (mto m) ec a ty Hns) in Hna. congruence.
+    - rewrite (slider_clause b (mto m) ec a ty Hsl Ht Ha) in Hcl.
+      rewrite (slider_clause (brd (make p m)) (mto m) ec a ty Hsl Ht Ha) in Hna.
+      unfold slide_in in Hcl, Hna. apply existsb_exists in Hcl as [e [He' Hr]].
+      assert (Y : existsb (fun d => ray_in (occ_of (brd (make p m))) d (mto m) a) (dirs_of ty) = true); [|congruence].
+      apply existsb_exists. exists e. split; [exact He'|].
+      rewrite ray_in_char in Hr. apply andb_true_iff in Hr as [R0 Rf]. rewrite ray_in_char, R0. cbn [andb].
+      apply forallb_forall. intros u Hu. rewrite forallb_forall in Rf.
+      destruct (btw_not_ends e (mto m) a u Ht Ha R0 Hu) as [Nu _].
+      apply (free_kept b (brd (make p m)) (mfrom m) (mto m) (arriving m) Hat u (btw_lt _ _ _ _ Hu) Nu). now apply Rf. }
+  unfold king_safe. apply Nat.eqb_eq. apply popcount_0_iff.
+  unfold attacks_to_spec. rewrite (ep_conv2_attacked (mto m) Hno), attackers_word. cbn [bb_of fold_right]. rewrite N.lor_0_r.
+  apply N.bits_inj_0. intros a. rewrite bb_filter_testbit. destruct (N.ltb_spec a 64) as [Ha|Ha]; [|reflexivity].
+  now rewrite (Hno a Ha).
+Qed.
+
+(** *** castling *)
+Lemma castle_illegal m : In m (pseudo p) -> mtype m = CASTLING -> is_legal p m = false.
+Proof.
+  intros Hm Hc. destruct Cking as (K1 & K2 & K3).
+  destruct (pseudo_inv p m Hm) as [Hf Ht Hnz Hcol Hto Hty|E|kf kt rf bit em Hin E Hk Hr Hem].
+  - destruct Hty as [[E _]|[E _]]; rewrite E in Hc; discriminate.
+  - rewrite E in Hc. discriminate.
+  - unfold is_legal. rewrite Hc, N.eqb_refl.
+    assert (Ekf : mfrom m = k).
+    { rewrite E. cbn [mfrom]. unfold is_piece in Hk. apply N.eqb_eq in Hk. apply K3; [|exact Hk].
+      apply castles_in in Hin. clear - Hin.
+      decompose [or] Hin; match goal with X : (_, _, _, _, _) = _ |- _ => injection X as -> -> -> -> -> end; lia. }
+    rewrite Ekf, Cattacked. reflexivity.
+Qed.
+
+(** *** the theorem *)
+Theorem legal_in_check_kept m : In m (pseudo p) -> is_legal p m = true -> ev_keep_m p m = true.
+Proof.
+  intros Hm His. unfold ev_keep_m.
+  destruct (N.eqb_spec (mtype m) CASTLING) as [Ec|Ec].
+  { rewrite (castle_illegal m Hm Ec) in His. discriminate. }
+  destruct (N.eqb_spec (mtype m) ENPASSANT) as [Ee|Ee]; [reflexivity|].
+  destruct (N.eqb_spec (mover p m) KING) as [Ek|Ek].
+  - now apply king_move_safe.
+  - now apply legal_target_in_evt.
+Qed.
+
 End Complete.
+
+(** ** evasion generation omits only illegal moves *)
+Theorem evasion_complete prom_nq p (legal : N -> bool) : legal_pos p = true -> in_check p = true ->
+  (forall m, In m (pseudo p) -> legal (code m) = is_legal p m) ->
+  exists le l,
+    gen_pseudo prom_nq (view_of_spec p) 3 true = Some le /\
+    gen_pseudo prom_nq (view_of_spec p) 3 false = Some l /\
+    filter legal le = filter legal l /\
+    Permutation (filter legal le) (map code (Rules.legal p)).
+Proof.
+  intros Hl Hchk Hag.
+  destruct (gen_pseudo_evasion_filter prom_nq p Hl 3) as (l & H1 & H2).
+  exists (filter (ev_keep p) l), l. split; [exact H2|]. split; [exact H1|].
+  destruct (pseudo_exact prom_nq p Hl) as (l' & E' & Pl & _). rewrite H1 in E'. apply some_inj in E'. subst l'.
+  assert (Heq : filter legal (filter (ev_keep p) l) = filter legal l).
+  { rewrite filter_filter. apply filter_ext_in. intros x Hx.
+    apply (Permutation_in _ Pl) in Hx. apply in_map_iff in Hx as [m [<- Hm]].
+    pose proof (pseudo_valid p m (legal_wfp p Hl) Hm) as Hv.
+    unfold ev_keep. rewrite (decode_mv_code m Hv), (Hag m Hm).
+    destruct (is_legal p m) eqn:E; [|apply andb_false_r].
+    now rewrite (legal_in_check_kept p Hl Hchk m Hm E). }
+  split; [exact Heq|]. rewrite Heq.
+  destruct (legal_moves_exact_oracle prom_nq p Hl legal Hag) as (ll & Hg & Pll & _).
+  unfold gen_legal in Hg. rewrite H1 in Hg. cbn [bind] in Hg. apply some_inj in Hg. now rewrite Hg.
+Qed.
+
+(* with the engine's IsLegalMove *)
+Theorem evasion_complete_engine prom_nq p : legal_pos p = true -> in_check p = true ->
+  exists le l,
+    gen_pseudo prom_nq (view_of_spec p) 3 true = Some le /\
+    gen_pseudo prom_nq (view_of_spec p) 3 false = Some l /\
+    filter (eng_legal p) le = filter (eng_legal p) l /\
+    Permutation (filter (eng_legal p) le) (map code (Rules.legal p)).
+Proof.
+  intros Hl Hchk. apply evasion_complete; try assumption. intros m Hm. now apply engine_legal_agrees.
+Qed.
+
+Print Assumptions legal_in_check_kept.
+Print Assumptions evasion_complete_engine.
